@@ -45,6 +45,8 @@ func init() {
 			{ID: "C20-R22", Title: "compile errors carry a position", Floor: 10, Run: compileErrorsCarryAPosition},
 			{ID: "C20-R23", Title: "commas are followed by a step over line breaks", Floor: 5, Run: commasAreFollowedByANewlineStep},
 			{ID: "C20-R24", Title: "nodes are not built on the token before without a look at it", Floor: 1, Run: nodesAreNotBuiltOnTheTokenBefore},
+			{ID: "C20-R25", Title: "separators are required between the items of a list", Floor: 1, Run: separatorsAreRequired},
+			{ID: "C20-R26", Title: "the rollback restores what compilation moves (shared with C18-R18)", Floor: 1, Run: rollbackRestoresWhatCompilationMoves},
 		},
 	})
 }
